@@ -167,7 +167,7 @@ fn spinner(t: f64, end: f64) -> ObjSpec {
 }
 
 /// hand-made pattern maps
-fn pattern_maps(rng: &mut Rng) -> Vec<(String, MapSpec)> {
+pub fn pattern_maps(rng: &mut Rng) -> Vec<(String, MapSpec)> {
     let mut v = Vec::new();
     let mk = |objs: Vec<ObjSpec>| {
         let mut m = MapSpec { mode: 0, ..Default::default() };
